@@ -109,7 +109,7 @@ def rule_nowrite(ctx, body):
     ctx.extra.setdefault("write_events", {})[name] = [w[1] for w in writes]
 
 
-def run(ctx):
+def rule_K_MUTATOR(ctx):
     f = ctx.facts
     st, cap = eqhash.rule_H_STORAGE(ctx)
     import deps
@@ -218,6 +218,11 @@ def run(ctx):
         ctx.ob("K-MUTATOR", "push_components appends in order to exactly the Vec class", vec_v == {v for v in st if cap.get(v) == "Vec"}, "%s" % sorted(vec_v))
         ctx.ob("K-MUTATOR", "push_components unites into exactly the Set class", set_v == {v for v in st if cap.get(v) == "Set"}, "%s" % sorted(set_v))
         ctx.ob("K-MUTATOR", "push_components inner fallback: Err", inner_err, "")
+
+
+def run(ctx):
+    f = ctx.facts
+    rule_K_MUTATOR(ctx)
     # effect analysis
     ctx.rule("E-NOWRITE-ON-ERR", "MIR effect analysis of set_atom_name and push_components: no store through / &mut borrow of *self handed to a "
              "call can be followed by the construction of an Err return value; a closure capturing &mut self is allowed only in an Ok-only "
